@@ -50,6 +50,7 @@ type event struct {
 	Forced int                 `json:"forced"` // 1: every token of the schedule could be forced
 	Calls  map[string][]string `json:"calls,omitempty"`
 	Asked  int                 `json:"asked"` // search: 1 = every partition was requested exactly once
+	Mut    int                 `json:"mutated"` // parts: 1 = a stored item's metadata differs after the search (a read changed state)
 }
 
 type world struct {
@@ -524,12 +525,30 @@ func runParts(n int, out string, seed int64) {
 			ev.Parts[name] = []int{}
 			for j := 0; j < rng.Intn(3); j++ {
 				sc := 1 + i + 4*j
-				ds.VerifPartitionIndex(i).Insert(itemId(sc), vec(float32(sc)), index.Metadata{}, 0)
+				ds.VerifPartitionIndex(i).Insert(itemId(sc), vec(float32(sc)), index.Metadata{"k": fmt.Sprint(sc)}, 0)
 				ev.Parts[name] = append(ev.Parts[name], int(hx.NewSpace("euclidean").Distance(vec(0), vec(float32(sc)))*4+0.5))
 			}
 			pids = append(pids, pid(i+1))
 		}
 		ev.K = []int{1, 2, 8}[rng.Intn(3)]
+		contents := func() string {
+			out := []string{}
+			for i := 0; i < np; i++ {
+				for _, v := range ds.VerifPartitionIndex(i).VerifDump().Vertices {
+					if v.Stored && !v.Deleted {
+						ks := []string{}
+						for k, x := range v.Metadata {
+							ks = append(ks, k+"="+x)
+						}
+						sort.Strings(ks)
+						out = append(out, fmt.Sprintf("%d:%s:%v:%s", i, v.Id, v.Vector, strings.Join(ks, ",")))
+					}
+				}
+			}
+			sort.Strings(out)
+			return strings.Join(out, ";")
+		}
+		before := contents()
 		late := rng.Intn(3) != 0
 		g := installGate("searchpartitions.collect")
 		if late {
@@ -572,6 +591,9 @@ func runParts(n int, out string, seed int64) {
 		}
 		ev.Forced = 1
 		storage.VerifGate = nil
+		if ev.Ret != "hang" && contents() != before {
+			ev.Mut = 1
+		}
 		enc.Encode(ev)
 	}
 }
